@@ -1325,11 +1325,24 @@ class T1CacheHistory(T1Comp):
             case["perf"] = perf
         if rng.random() < 0.1:
             rng.shuffle(case["active"])
+        # slice budgets (ctx.slice_budgets) on the long-lived cache: the budget is shared by the active graphs of one
+        # call, so the same graph with the same seeds runs under different REMAINDERS from call to call when the
+        # graphs before it are seeded / not seeded / absent — small values so that the remainder binds
+        sliced = rng.random() < 0.5
+        if sliced:
+            case["slice"] = self._gen_slice(rng)
         gids = [g["gid"] for g in graphs]
+        # texts that seed only a subset of the graphs (one keyword each)
+        sub_texts = [w for w in text_words] + [" ".join(text_words[k:]) for k in range(1, len(text_words))]
+        if sub_texts and rng.random() < 0.5:
+            case["text"] = rng.choice(sub_texts)
+        full_text = " ".join(text_words) or case["text"]
         steps = []
         for _ in range(rng.choice([1, 2, 2, 3])):
             r = rng.random()
-            text = case["text"] if r < 0.6 else (gen_text(rng, words, graphs) if r < 0.85 else case["text"].upper())
+            text = case["text"] if r < 0.45 else (full_text if r < 0.6 else (
+                gen_text(rng, words, graphs) if r < 0.75 else (
+                    rng.choice(sub_texts) if sub_texts and r < 0.9 else case["text"].upper())))
             r2 = rng.random()
             if r2 < 0.5:
                 active = list(case["active"])
@@ -1339,13 +1352,32 @@ class T1CacheHistory(T1Comp):
                 active = list(reversed(case["active"]))
             else:
                 active = [rng.choice(gids) for _ in range(rng.choice([1, 2, 3]))]
-            steps.append({"text": text, "active": active})
+            st = {"text": text, "active": active}
+            if sliced and rng.random() < 0.3:
+                st["slice"] = self._gen_slice(rng) if rng.random() < 0.8 else None
+            steps.append(st)
         case["steps"] = steps
         return case
 
+    @staticmethod
+    def _gen_slice(rng: random.Random) -> dict:
+        sl: Dict[str, Any] = {}
+        r = rng.random()
+        if r < 0.75:
+            sl["t1_pops"] = rng.choice([1, 2, 2, 3, 3, 4, 5, 6, 8, 0, 50])
+        if r > 0.55:
+            sl["t1_iters"] = rng.choice([1, 2, 2, 3, 3, 4, 0, 50])
+        return sl
+
     def call_cases(self, case: dict) -> List[dict]:
         base = {k: v for k, v in case.items() if k != "steps"}
-        return [base] + [dict(base, text=st["text"], active=st["active"]) for st in case.get("steps", [])]
+        out = [base]
+        for st in case.get("steps", []):
+            ck = dict(base, text=st["text"], active=st["active"])
+            if "slice" in st:        # this call's ctx carries other slice budgets (None: no `slice_budgets` value)
+                ck["slice"] = st["slice"]
+            out.append(ck)
+        return out
 
     @staticmethod
     def _core(out: dict) -> dict:
@@ -1429,6 +1461,12 @@ class T1CacheHistory(T1Comp):
                 continue
             res.append(("purity", bool(w["pure"]), f"call {k}: store/config/state changed by t1_propagate"))
             res.append(("delta_shape", bool(w["ops_ok"]), f"call {k}: a delta is not {{'op':'upsert_node','id':…}}"))
+            sl = ck.get("slice") or {}
+            for key, mk in (("t1_pops", "pops"), ("t1_iters", "iters")):
+                if sl.get(key) is not None:
+                    res.append((f"slice_{mk}_bind", int(w["metrics"][mk]) <= max(0, int(sl[key])),
+                                f"call {k} (text {ck['text']!r}, active {ck['active']}) after {k} earlier call(s) on the warm T1 "
+                                f"cache: total {mk} {w['metrics'][mk]} over the active graphs exceeds slice budget {key}={sl[key]}"))
             if "raised_exc" not in c:
                 res.append(("warm_equals_cold", self._core(w) == self._core(c),
                             f"call {k} (text {ck['text']!r}, active {ck['active']}) after {k} earlier call(s) in the same process "
@@ -1466,6 +1504,16 @@ class T1CacheHistory(T1Comp):
                 t.add("active_varied")
             if k > 0 and ck["text"] != calls[0]["text"]:
                 t.add("text_varied")
+            sl = ck.get("slice") or {}
+            if sl.get("t1_pops") is not None or sl.get("t1_iters") is not None:
+                t.add("sliced")
+                if m.get("cache_hits"):
+                    t.add("sliced_cache_hit")
+                if (sl.get("t1_pops") is not None and m["pops"] >= int(sl["t1_pops"])) or \
+                        (sl.get("t1_iters") is not None and m["iters"] >= int(sl["t1_iters"])):
+                    t.add("slice_budget_exhausted")
+            if k > 0 and ck.get("slice") != calls[0].get("slice"):
+                t.add("slice_varied")
         t.add(f"calls:{len(calls)}")
         return sorted(t) or ["default"]
 
